@@ -38,6 +38,9 @@ type world struct {
 	accepted []map[int][]int
 	failed   []bool // matcher i returned an error to the controller
 	remoteKO []bool // matcher i's remote call failed (swallowed by the controller)
+	// shown[i] = the records matcher i's Filter was shown (the controller shows
+	// every record of the index report to every matcher it runs, once)
+	shown [][]recT
 	// what each enricher saw
 	seenVulns, seenPkgs []int
 	enrichRan           []bool
@@ -146,6 +149,7 @@ func newWorld(sc *scenario, rnd *hx.Rand) *world {
 	w.accepted = make([]map[int][]int, n)
 	w.failed = make([]bool, n)
 	w.remoteKO = make([]bool, n)
+	w.shown = make([][]recT, n)
 	for i := range sc.matchers {
 		w.accepted[i] = map[int][]int{}
 		base := &scriptMatcher{w: w, idx: i, s: &sc.matchers[i]}
@@ -193,7 +197,10 @@ type scriptMatcher struct {
 func (m *scriptMatcher) Name() string { return "m" + strconv.Itoa(m.idx) }
 
 func (m *scriptMatcher) Filter(r *claircore.IndexRecord) bool {
-	_, name, dist, repo := recOf(r)
+	pkg, name, dist, repo := recOf(r)
+	m.w.mu.Lock()
+	m.w.shown[m.idx] = append(m.w.shown[m.idx], recT{pkg, name, dist, repo})
+	m.w.mu.Unlock()
 	return inOrAll(m.s.names, name) && inOrAll(m.s.dists, dist) && inOrAll(m.s.repos, repo)
 }
 
